@@ -1014,12 +1014,24 @@ def c12_run(ctx):
             ctx.violation(v["what"], dict(engine="S-codec", theorem_or_correspondence="xsv codec J/F/P lines vs xsmodel json"), no_input=True)
         else:
             ctx.violation(v["what"][:600], dict(engine="S-codec", json_input=v.get("input")))
+    wb = robust(V.wire_boundary_probe, "wire boundary probe")(ctx.rnd.randrange(1, 10 ** 9))
+    for v in wb["violations"]:
+        ctx.violation(v["what"][:600], dict(engine="H", probe="wire_boundary_probe"))
+    # what the boundary accepted carries exactly the TTL the grammar (extracted parse_ttl) assigns to the string
+    acc_model, _, _ = CE._run(build.XSMODEL, "codec", ["ttl " + S.xh(t) for t, _ in wb["accepted"]])
+    for (t, got), m in zip(wb["accepted"], acc_model):
+        want = m[3:] if m.startswith("ok ") else None
+        canon = lambda x: None if x is None else (x.split(":")[0] + ":%x" % int(x.split(":")[1]) if ":" in x else x)
+        if want is None or canon(got) != want:
+            ctx.violation(f"POST /wire?ttl={t!r} was accepted and stored with ttl {got!r}; the grammar says {m!r}",
+                          dict(engine="H", probe="wire_boundary_probe", input=t))
     nd = robust(lambda _sd: V.nu_deep_meta_probe(), "nu deep meta probe")(0)
     for v in nd["violations"]:
         ctx.violation(v["what"][:600], dict(engine="V", probe="nu_deep_meta_probe"))
     st = r["stats"]
     st.update(rj["stats"])
     st["nu_deep_meta_probes"] = nd["probes"]
+    st["http_boundary_probes"] = wb["probes"]
     ctx.coverage.update(dict(
         evaluations=sum(st[k] for k in ("ttl_values", "ttl_strings", "ttl_queries", "ro_values", "ro_queries", "json_texts", "frame_texts", "store_probes")),
         distinct_nontrivial=st["accepted"],
